@@ -76,9 +76,9 @@ theorem dryWiring_guards_ok :
        ("Executor.Run:summary.PrintTask", "e.Summary && range calls"),
        ("Executor.Run:e.splitRegularAndWatchCalls", "!(e.Summary)")] := by decide
 
-theorem dryWiring_skipFingerprinting_ok : DryWiring.skipFingerprinting = "e.ForceAll || (!call.Indirect && e.Force)" := by rfl
+theorem dryWiring_skipFingerprinting_ok : DryWiring.skipFingerprinting = "(!call.Indirect && e.Force) || e.ForceAll" := by rfl
 
-theorem dryWiring_upToDateReturn_ok : DryWiring.upToDateReturn = "upToDate && preCondMet" := by rfl
+theorem dryWiring_upToDateReturn_ok : DryWiring.upToDateReturn = "<preconditions> && upToDate" := by rfl
 
 theorem fingerOrder_checksumIsUpToDate_ok : FingerOrder.checksumIsUpToDate = [("return false, nil", "len(t.Sources) == 0"),
   ("checker.checksumFilePath", "!(len(t.Sources) == 0)"),
